@@ -1,9 +1,11 @@
 //! C05 — response head parsing is exact and safe on every prefix.
 
 use serde_json::{json, Value};
-use ureq_proto::client::MAX_RESPONSE_HEADERS;
 use ureq_proto::http::{Method, Response};
 use ureq_proto::parser::try_parse_response;
+
+/// The statement fixes the limit: heads with up to 128 fields are accepted, more are rejected.
+const MAX_RESPONSE_HEADERS: usize = 128;
 
 use crate::drive::recv::{call_recv, flow_recv};
 use crate::infra::runner::{PropDef, RandomDef, Tier};
